@@ -7,6 +7,14 @@
 //! Line protocol (inputs + witnesses of what the third-party crate did):
 //!   enc   max=<M> len=<L> fill=<F> tab=<n1>:<w1>,<n2>:<w2>,...
 //!   fetch max=<M> len=<L> fill=<F> tab=<...> codes=<c>/<c>/...
+//!   put   max=<M> len=<L> fill=<F> entry=<private|public|cost> tab=<...>
+//!         every client entry point that takes the caller's bytes to self-encryption, driven offline:
+//!         private = Client::data_put(bytes, PaymentOption::Receipt(empty)) then Client::data_get(returned DataMapChunk);
+//!         public = Client::data_put_public(bytes, Receipt(empty)) then Client::data_get_public(returned address);
+//!         cost = Client::data_cost(bytes) (only generated for len < 3: it needs the network beyond that).
+//!         An empty receipt means "already paid": nothing is paid or uploaded, the put returns the data map / address.
+//!         The read goes against a source holding the chunks of `encrypt(bytes)` and, for len < 3, also those of the
+//!         zero-padded 3-byte input (so a silently padded put reads back as something and is seen to be mangled).
 //! fill = z (zeros) | c<b> (constant byte) | p (i*7+3) | r<seed> (pseudo-random)
 //! tab  = per data-map level d = 1.. (1 = the map of the user data): number of chunks n_d and size w_d of the serialised
 //!        `DataMapLevel` — read back from the real output by an independent unpacker (`-` if there is none);
@@ -14,6 +22,7 @@
 //! codes = Lehmer code of the completion order of each fetch round (first round = top level), `-` = issue order;
 //!        the harness follows it as far as the download window (CHUNK_DOWNLOAD_BATCH_SIZE=6) allows and writes back the
 //!        order that actually happened
+//!         put -> `ok same` | `ok different` | `ok unreadable:<class>` | `err selfenc` | `err <class>`
 //! Output: enc -> `ok lvl=<k> dm=<size of data-map chunk> addr=<content|other> chunks=<level*count ...>` | `err selfenc`
 //!         (run-length encoded levels of the returned chunk list: content chunks first, then level 2, 3, …)
 //!         fetch -> `ok same` | `ok different` | `err <class>`
@@ -357,8 +366,11 @@ fn field<'a>(ws: &[&'a str], key: &str) -> Option<&'a str> {
 fn exec(rt: &tokio::runtime::Runtime, line: &str, max: usize, out: &mut Out, st: &mut Stats) -> Option<(String, String)> {
     let ws: Vec<&str> = line.split_whitespace().collect();
     let op = *ws.first()?;
-    if op != "enc" && op != "fetch" {
+    if op != "enc" && op != "fetch" && op != "put" {
         return Some((line.to_string(), "bad-op".into()));
+    }
+    if op == "put" {
+        return exec_put(rt, &ws, max, out);
     }
     let m = field(&ws, "max")?;
     if m != "?" && m.parse::<usize>().ok()? != max {
@@ -452,6 +464,115 @@ fn exec(rt: &tokio::runtime::Runtime, line: &str, max: usize, out: &mut Out, st:
     }
 }
 
+/// answer every GetNetworkRecord from `source` in issue order
+fn simple_drive<T>(rt: &tokio::runtime::Runtime, net: &mut Net, fut: impl Future<Output = T>, source: &HashMap<RecordKey, Vec<u8>>) -> Option<T> {
+    rt.block_on(drive(
+        fut,
+        &mut net.net_rx,
+        |_| 0,
+        |key| match source.get(key) {
+            Some(v) => Ok(Record {
+                key: key.clone(),
+                value: try_serialize_record(&Chunk::new(Bytes::from(v.clone())), RecordKind::Chunk).expect("ser").to_vec(),
+                publisher: None,
+                expires: None,
+            }),
+            None => Err(GetRecordError::RecordNotFound),
+        },
+    ))
+}
+
+fn put_error_class(e: &autonomi::client::data::PutError) -> String {
+    use autonomi::client::data::PutError;
+    match e {
+        PutError::SelfEncryption(_) => "selfenc".into(),
+        other => format!("put:{}", format!("{other:?}").split(['(', ' ', '{']).next().unwrap_or("?")),
+    }
+}
+
+/// `put` op: one client entry point that hands the caller's bytes to self-encryption, then the matching read
+fn exec_put(rt: &tokio::runtime::Runtime, ws: &[&str], max: usize, out: &mut Out) -> Option<(String, String)> {
+    use autonomi::client::data::CostError;
+    use autonomi::client::payment::{PaymentOption, Receipt};
+    let m = field(ws, "max")?;
+    if m != "?" && m.parse::<usize>().ok()? != max {
+        return None;
+    }
+    let raw = ws.join(" ");
+    let (Some(len), Some(fill), Some(entry)) = (field(ws, "len").and_then(|l| l.parse::<usize>().ok()), field(ws, "fill"), field(ws, "entry")) else {
+        return Some((raw, "bad-op".into()));
+    };
+    let Some(data) = make_data(len, fill) else { return Some((raw, "bad-op".into())) };
+    if !["private", "public", "cost"].contains(&entry) {
+        return Some((raw, "bad-op".into()));
+    }
+    // the record source: chunks of encrypt(data) (+ data-map chunk); for len < 3 also those of the zero-padded input
+    let mut source: HashMap<RecordKey, Vec<u8>> = HashMap::new();
+    let mut tab = "-".to_string();
+    let mut variants: Vec<Vec<u8>> = vec![data.clone()];
+    if len < 3 {
+        let mut p = data.clone();
+        p.resize(3, 0);
+        variants.push(p);
+    }
+    for (i, v) in variants.iter().enumerate() {
+        if let Ok(e) = real_encrypt(v) {
+            if i == 0 {
+                tab = tab_of(&e);
+            }
+            for c in e.chunks.iter().chain(std::iter::once(&e.dm_chunk)) {
+                source.insert(RecordKey::new(&sha3(c.value())), c.value().to_vec());
+            }
+        }
+    }
+    let norm = format!("put max={max} len={len} fill={fill} entry={entry} tab={tab}");
+    let r = catch_unwind(AssertUnwindSafe(|| {
+        let mut net = new_net();
+        let client = net.client.clone();
+        match entry {
+            "private" => match simple_drive(rt, &mut net, client.data_put(Bytes::from(data.clone()), PaymentOption::Receipt(Receipt::new())), &source) {
+                None => "stuck".to_string(),
+                Some(Err(e)) => format!("err {}", put_error_class(&e)),
+                Some(Ok(dm)) => match simple_drive(rt, &mut net, client.data_get(dm), &source) {
+                    None => "stuck".into(),
+                    Some(Ok(d)) => if d.as_ref() == data.as_slice() { "ok same".into() } else { "ok different".into() },
+                    Some(Err(e)) => format!("ok unreadable:{}", get_error_class(&e)),
+                },
+            },
+            "public" => match simple_drive(rt, &mut net, client.data_put_public(Bytes::from(data.clone()), PaymentOption::Receipt(Receipt::new())), &source) {
+                None => "stuck".to_string(),
+                Some(Err(e)) => format!("err {}", put_error_class(&e)),
+                Some(Ok(addr)) => match simple_drive(rt, &mut net, client.data_get_public(addr), &source) {
+                    None => "stuck".into(),
+                    Some(Ok(d)) => if d.as_ref() == data.as_slice() { "ok same".into() } else { "ok different".into() },
+                    Some(Err(e)) => format!("ok unreadable:{}", get_error_class(&e)),
+                },
+            },
+            _ => match simple_drive(rt, &mut net, client.data_cost(Bytes::from(data.clone())), &source) {
+                None => "stuck".to_string(),
+                Some(Err(CostError::SelfEncryption(_))) => "err selfenc".into(),
+                Some(Err(e)) => format!("err cost:{}", format!("{e:?}").split(['(', ' ', '{']).next().unwrap_or("?")),
+                Some(Ok(_)) => "ok priced".into(),
+            },
+        }
+    }));
+    let res = r.unwrap_or_else(|_| "panic".into());
+    // oracle: too small => an error on every entry point; otherwise what was put reads back byte-identical
+    if len < 3 {
+        if !res.starts_with("err ") {
+            out.oracle_fail(
+                "too-small-rejected",
+                &norm,
+                &format!("a {len}-byte input (< 3) given to the `{entry}` put entry point was not rejected with an error: `{res}`"),
+            );
+        }
+    } else if entry != "cost" && res != "ok same" {
+        out.oracle_fail("roundtrip", &norm, &format!("the {len}-byte input put through the `{entry}` entry point read back as `{res}`"));
+    }
+    out.count(&format!("put-entry:{entry}"));
+    Some((norm, res))
+}
+
 fn gen_fill(rng: &mut Rng) -> String {
     match rng.below(6) {
         0 => "z".into(),
@@ -493,8 +614,19 @@ fn main() {
             } else {
                 lens.extend_from_slice(&[4 * max + 1]);
             }
+            // every put entry point around the minimum size, first
+            for l in 0..=5usize {
+                for fill in ["z", "c97", "r3"] {
+                    for entry in ["private", "public", "cost"] {
+                        if entry == "cost" && l >= 3 {
+                            continue;
+                        }
+                        v.push(format!("put max={max} len={l} fill={fill} entry={entry} tab=?"));
+                    }
+                }
+            }
             // boundary lengths first (both ops), then random ones
-            let budget = args.n as usize;
+            let budget = args.n as usize + v.len();
             for (i, l) in lens.iter().enumerate() {
                 if v.len() >= budget.max(12) && !small {
                     break;
@@ -514,7 +646,10 @@ fn main() {
                     rng.below(5000) as usize
                 };
                 let fill = gen_fill(&mut rng);
-                if rng.chance(1, 3) {
+                if rng.chance(1, 6) {
+                    let entry = if rng.chance(1, 2) { "private" } else { "public" };
+                    v.push(format!("put max={max} len={l} fill={fill} entry={entry} tab=?"));
+                } else if rng.chance(1, 3) {
                     v.push(format!("enc max={max} len={l} fill={fill} tab=?"));
                 } else {
                     v.push(format!("fetch max={max} len={l} fill={fill} tab=? codes={}", gen_codes(&mut rng)));
